@@ -35,6 +35,8 @@ KINDS = {
     "int-lit-bound-empty": ("u8", "#[default(7, bound())]", "7u8"),
     "str-into-bound-empty": ("M", '#[default("ab", bound())]', "M { v: 2, via: 2 }"),
     "method-call": ("u8", "#[default(sd(0).wrapping_add(3))]", "sd(0).wrapping_add(3)"),
+    # a parenthesised path is neither a path nor a string literal: no `Into`, the value reaches the field type by coercion
+    "paren-const-coerced": ("&'static [u8]", "#[default((BYTES3))]", "&BYTES3[..]"),
     # the expression names an item in scope that is called like the first field (`f0`): it is evaluated at the use site's scope, fields are not locals
     "call-named-like-field": ("u8", "#[default(f0(2))]", "sd(2)"),
 }
